@@ -291,6 +291,39 @@ def run(ctx, res):
     ctx.require(res, "R10.4", n, 1, "normalised cross products in distance()")
     # R10.6 every classification inside distance() and its helpers is tolerant
     from ..exact import report_exact
-    k6 = report_exact(ctx, res, "R10.6", closure, "distance()")
+    reached = eng.reached_from([(fi, (S(ta), S(tb))) for ta, tb in DOCUMENTED])
+    closure6 = list(closure) + [f_ for f_ in repo.functions(include_visualization=False) if f_.qual in reached and f_ not in closure]
+    k6 = report_exact(ctx, res, "R10.6", closure6, "distance()")
+    # R10.7 the result scales like a length (degree 1 under scaling all coordinates) on every documented pair, and no
+    # expression on the way combines quantities of different degree
+    from .c06 import Degree, Z
+    dg = Degree(ctx)
+    kd = lambda t: ("p",) if t == "Point" else ("o", t)
+    n7 = 0
+    for ta, tb in DOCUMENTED:
+        r = dg.fn_degree(fi, (kd(ta), kd(tb)))
+        got = r[1] if r is not None and r[0] == "s" else None
+        if got is None:
+            if dg.errors:
+                continue
+            raise AnalysisError("%s: the homogeneity degree of distance(%s, %s) cannot be determined" % (fi.where(), ta, tb))
+        n7 += 1
+        ok = got == 1 or got == Z
+        res.ob("R10.7", fi.where(), "distance(%s, %s) has degree 1" % (ta, tb), ok, "degree %s under scaling of all coordinates" % got)
+        if not ok:
+            res.violation("R10.7", fi, fi.node, "distance(%s, %s) scales like k^%s under scaling all coordinates by k; a distance must scale "
+                          "like k (a missing normalisation, a dropped square root, an extra length factor)" % (ta, tb, got),
+                          construct="distance(%s, %s) degree" % (ta, tb))
+    seen7 = set()
+    for f_, node, msg in dg.errors:
+        k_ = (f_.qual, txt(node), msg)
+        if k_ in seen7:
+            continue
+        seen7.add(k_)
+        res.ob("R10.7", f_.where(node), "%s: `%s`" % (f_.short, txt(node)[:50]), False, msg)
+        res.violation("R10.7", f_, node, "dimensionally inconsistent expression in %s: %s" % (f_.short, msg),
+                      construct="%s: inhomogeneous `%s`" % (f_.short, txt(node)[:60]))
+    if not dg.errors:
+        ctx.require(res, "R10.7", n7, 8, "documented operand pairs with a degree")
     ctx.require(res, "R10.6", k6, 8, "decision atoms of distance() examined")
     res.undecided_ob("the value equals the minimum Euclidean distance; zero exactly when intersection(a, b) is not None")
